@@ -199,6 +199,9 @@ impl PatchChain {
                                         entry.priority,
                                         e
                                     );
+                                    // A patch that cannot be parsed must fail the read:
+                                    // skipping it would return unpatched, unverified data
+                                    return Err(e);
                                 }
                             }
                         }
@@ -210,6 +213,7 @@ impl PatchChain {
                                 entry.priority,
                                 e
                             );
+                            return Err(e);
                         }
                     }
                 } else if base_data.is_none() {
